@@ -14,7 +14,7 @@ SIZES = [0, 1, 2, 3, 5, 7]
 BIG_SIZES = [257, 300, 1000]
 MAX_ELEMS = 500_000   # cases with a larger array are generated again (memory)
 SPELLINGS = ["Optional", "T|None", "None|T", "Union[None,T]", "Union[T,None]"]
-NAME_POOL = ["a", "b", "c", "d", "n_k", "max_len"]
+NAME_POOL = ["a", "b", "c", "d", "n_k", "max_len", "in"]   # incl. a Python keyword: dimension names are not Python names
 GROUP_POOL = ["g", "bt", "a"]   # "a" is also a dimension name: sizes and group lengths live in different tables
 CLASSES = {
     "TensorTypeBase": SHARED_DT,
